@@ -27,7 +27,7 @@ FLOATS = {"f32": 32, "f64": 64}
 PRIMS = list(INTS) + list(FLOATS) + ["bool", "char", "DiplomatChar"]
 SLICE_PRIMS = list(INTS) + list(FLOATS) + ["bool", "DiplomatByte"]
 
-KEYWORD_PARAMS = ["int", "class", "default", "new", "this", "register", "template", "char", "double", "typename",
+KEYWORD_PARAMS = ["int", "class", "default", "new", "register", "template", "char", "double", "typename",
                   "namespace", "delete", "operator", "signed", "union", "volatile", "auto", "switch", "short", "long"]
 
 
@@ -183,7 +183,7 @@ DEFAULT_PROFILE = dict(
     owned_slices=True, mut_slices=True, write=True, struct_slices=True, struct_orefs=True,
     borrowed_returns=True, out_structs=True, struct_methods=True, enum_methods=True,
     dip_spellings=True, result_dip=False, keyword_params=True, nested_structs=True,
-    max_params=5, cb_struct_args=True, opt_slices=True, char=True, ordering=True,
+    max_params=5, cb_struct_args=True, opt_slices=True, char=False, ordering=True,
     mut_self=True, opt_mut_oref=True, namespaces=False, byte_slices=True, renames=False,
     strs_utf8=False,
 )
@@ -264,6 +264,8 @@ class Gen:
             return ("enum", self.pick(self.enums).name)
         if c < 0.65 and self.structs and self.p["nested_structs"]:
             cands = [s for s in self.structs if not s.lifetimes or lifetimes is not None]
+            if not cands:
+                return ("prim", self.pick(self.prims()))
             s = self.pick(cands)
             if s.lifetimes and lifetimes is not None:
                 lifetimes.add("a")
@@ -288,7 +290,7 @@ class Gen:
     def gen_struct(self, out=False):
         n = self.ri(1, 6)
         lts = set()
-        allow_lt = self.chance(0.35)
+        allow_lt = self.chance(0.35) and not out
         fields = []
         for i in range(n):
             t = self.field_type(0, lts if allow_lt else None, out)
@@ -369,8 +371,8 @@ class Gen:
             return ("enum", self.pick(self.enums).name)
         if c < 0.70 and [s for s in self.structs if not s.lifetimes]:
             return ("struct", self.pick([s for s in self.structs if not s.lifetimes]).name)
-        if c < 0.78 and self.outstructs and self.p["out_structs"]:
-            return ("struct", self.pick(self.outstructs).name)
+        if c < 0.78 and [s for s in self.outstructs if not s.lifetimes] and self.p["out_structs"]:
+            return ("struct", self.pick([s for s in self.outstructs if not s.lifetimes]).name)
         if allow_box and self.opaques:
             return ("obox", self.pick(self.opaques).name, False)
         return ("prim", self.pick(self.prims()))
@@ -433,8 +435,17 @@ class Gen:
             params.append((nm, t))
         ret = self.ret_type(owner, sk, params)
         lifetimes = []
+        def has_lt_struct(t):
+            if t[0] == "struct":
+                return bool(self.find_struct(t[1]).lifetimes)
+            if t[0] == "opt":
+                return has_lt_struct(t[1])
+            return False
+        needs_a = any(has_lt_struct(t) for _, t in params)
         if ret == ("borrow?",):
             ret, sk, params, lifetimes = self.make_borrowing(owner, sk, params)
+        if needs_a and not lifetimes:
+            lifetimes = ["a"]
         # trailing write
         if p["write"] and self.chance(0.18) and ret[0] in ("unit", "result") and (ret[0] == "unit" or ret[1] == ("unit",)):
             params.append(("w", ("write",)))
@@ -497,7 +508,7 @@ class Gen:
         for t in items:
             if t.kind == "opaque":
                 n = self.ri(*self.n_methods)
-            elif t.kind == "struct" and self.p["struct_methods"]:
+            elif t.kind == "struct" and self.p["struct_methods"] and not t.lifetimes:
                 n = self.ri(0, 3)
             elif t.kind == "enum" and self.p["enum_methods"]:
                 n = self.ri(0, 2)
